@@ -49,7 +49,7 @@ Oblig == IF v' # "ok" THEN v'
 
 TOp == /\ Ev.ev # "new" /\ ~dead
        /\ IF Ev.err < 0
-            THEN Mark("panic") /\ dead' = TRUE /\ UNCHANGED pvars
+            THEN Mark(IF Ev.err = 0 - 2 THEN "hang" ELSE "panic") /\ dead' = TRUE /\ UNCHANGED pvars
           ELSE /\ Apply
                /\ LET o == Oblig IN
                     IF o = "ok" THEN UNCHANGED <<dead, bad>> ELSE Mark(o) /\ dead' = TRUE
